@@ -8,6 +8,12 @@ import subprocess
 ROOT = os.path.dirname(os.path.dirname(os.path.abspath(__file__)))
 # subject prefix of the fix: commit -> (properties, what failed before the repair, how the checks showed it)
 FIXED = {
+    'fix: TxGet with an invalid key must not drop the transactio': (['C19', 'C17'], 'TxGet with an empty or over-long key removed the handle from the registry without rolling the transaction back: the database lock stayed held for good (no read-write transaction could begin again)', 'C19 generated behaviours: final probe "a fresh read-write transaction is granted" failed after an invalid TxGet (witness findings/W_C19_txget_invalid_key_drops_handle.json)'),
+    'fix: a put of a nil value stores an empty value instead of ': (['C19', 'C01'], 'Put(k, nil) / every empty value sent over gRPC was logged as a put of an empty value but read back as absent until the next restart', 'C19 value class "empty": acknowledged Put then Get absent; present after reopen (witness findings/W_C19_empty_value_unreadable.json)'),
+    'fix: Scan and TxScan apply start/end keys together with pre': (['C19'], 'Scan/TxScan ignored start_key/end_key whenever a prefix or suffix was given', 'C19 sweep over the whole scan-option product against ScanOK (witness findings/W_C19_scan_ignores_range_with_prefix.json)'),
+    'fix: apply replicated merge entries without leaving read-on': (['C16'], 'the replica applier handled a merge entry by switching read-only off, calling Put and switching it on again: client Put/Delete/ApplyBatch arriving in between were accepted by the replica', 'C16 gated overlap: applier parked at sm.put.logged while a client mutation is sent (witness findings/W_C16_merge_apply_opens_write_window.json)'),
+    'fix: let the gRPC server receive the 10MB values the servic': (['C19'], 'the server kept gRPC\'s default 4 MB receive limit: values between 4 MB and the documented 10 MB limit failed with ResourceExhausted', 'C19 value class 10 MiB against the real kevo -server binary (witness findings/W_C19_server_refuses_values_over_4MB.json)'),
+    'fix: close the database on SIGTERM/SIGINT instead of exitin': (['C19', 'C01'], 'the signal handler ended in os.Exit(0), skipping the deferred engine Close: acknowledged writes still buffered by the WAL were lost on graceful shutdown', 'C19 real-binary scripts: state after SIGTERM + reopen differs from the prediction (witness findings/W_C19_graceful_shutdown_loses_buffered_writes.json)'),
     'fix: an empty first fragment in the WAL is damage': (['C10'], 'a zero-length FIRST record with a valid checksum made Reader.ReadEntry panic (index out of range) while opening', 'harness process died inside kevo code while C09 replayed a seeded writer bug (c09-large-batch-drops-buffered); treated as an observation (KevoPanic)'),
     'fix: let the replica applier accept the entries of a batch, ': (['C13', 'C14'], 'entries of a transaction share one sequence number; the applier applied the first one, raised "gap within batch" and stayed stuck with half a transaction visible', 'C13 component replay: "message must be accepted: gap within batch 2 -> 2 applied=2"'),
     'fix: keep replication attached to the WAL across rotations': (['C14'], 'the primary observed and polled the WAL object alive at start; after the first flush nothing reached the replicas', 'C14 system scenario flush-between: noconv after 20 s'),
